@@ -103,7 +103,7 @@ def cases(draw):
             draw(st.integers(0, 2)) == 0):
         mq = draw(st.sampled_from(['"', "'", '"', "'", ""]))
         mtype = draw(st.sampled_from(["text/html", "text/html",
-                                      "application/xhtml+xml"]))
+                                      "application/xhtml+xml", "text/xml"]))
         cs = draw(st.sampled_from(names))
         he = draw(st.sampled_from(["http-equiv", "HTTP-EQUIV", "Http-Equiv"]))
         ct = draw(st.sampled_from(["Content-Type", "content-type",
@@ -203,6 +203,9 @@ class Bytes(Part):
     def strategy(self, tier):
         return cases()
 
+    def known(self, case, mismatch):
+        return "K17" if mismatch.bucket == "bytes:K17" else None
+
     def nontrivial(self, case):
         doc = document(case)
         return (case["encoding"] != "utf-8" or case["bom"]) and \
@@ -289,6 +292,15 @@ class Bytes(Part):
                 os.unlink(path)
             except OSError:
                 pass
+        # K17: a meta element whose media type is text/xml makes a document
+        # WITHOUT XML declaration an XML document (as str always, as bytes
+        # unless a byte-order mark ends the sniffing earlier)
+        if case.get("meta") and "text/xml" in case["meta"] and not (
+                case["decl"] is not None and not case.get("lead")) and \
+                "text/xml" in (t.content_type, ref_t.content_type):
+            return Mismatch("bytes:K17", dict(
+                info, content_type=t.content_type,
+                content_type_str=ref_t.content_type))
         if not out.ok:
             return Mismatch("bytes:render raises " + out.exc_name,
                             dict(info, outcome=out.brief()))
